@@ -203,6 +203,18 @@ func TestVerifC08Sock(t *testing.T) {
 			Shape: dnsserver.VerifC08Shape{Kind: "manyA", Bulk: "an", Fill: "an", HOpt: "none", Target: 300}}})
 	}
 
+	// directed: plain UDP with a configured maximum of 0 or 300 (the bound is the classic 512 then) and a client
+	// that advertises more: answers just below, at and above 512 bytes and a large one
+	for _, cfg := range []int{0, 300} {
+		for _, sz := range []uint16{513, 1232, 4096} {
+			for _, target := range []int{500, 512 - 11, 513 - 11, 700, 1200} {
+				jobs = append(jobs, job{i: len(jobs), via: "udp", c: dnsserver.VerifC08Case{Proto: "dns-udp",
+					Req: dnsserver.VerifC08Req{Opt: true, Size: sz, Do: sz == 1232}, Cfg: cfg,
+					Shape: dnsserver.VerifC08Shape{Kind: "manyA", Bulk: "an", Fill: "an", HOpt: "none", Target: target}}})
+			}
+		}
+	}
+
 	res := make([]dnsserver.VerifC08Obs, len(jobs))
 	exchange := func(k int) {
 		j := jobs[k]
